@@ -205,7 +205,10 @@ POSITIONS = ["colheader", "title", "subline", "footnote_table", "footnote_para",
 TWO_LINE = {"title": "TT", "subline": "SL", "page_header": "PH", "page_footer": "PF"}
 NORM_SENSITIVE = [chr(0x2126), chr(0x212A), chr(0x212B), "e" + chr(0x301), "A" + chr(0x30A), chr(0xF900), chr(0x2F800),
                   chr(0xFB01), chr(0x1E9E), chr(0x130), chr(0x131), chr(0x17F), chr(0x3C2), chr(0xA0) + "x", chr(0x2003) + "x",
-                  chr(0x200B) + "x", chr(0xFEFF) + "x", chr(0x2028) + "x", chr(0xAD) + "x", chr(0x1F1E9) + chr(0x1F1EA)]
+                  chr(0x200B) + "x", chr(0xFEFF) + "x", chr(0x2028) + "x", chr(0xAD) + "x", chr(0x1F1E9) + chr(0x1F1EA),
+                  # ASCII that LOOKS like an escape of some other notation, next to a real non-ASCII character
+                  "&#945; " + chr(0x3B1), "R&#38;D caf" + chr(0xE9), "&#x3b1;" + chr(0xE9), "&amp;" + chr(0xE9),
+                  "%CE%B1 " + chr(0x3B1), "U+03B1 " + chr(0x3B1), "=?utf-8?q?" + chr(0xE9)]
 
 
 def position_doc(rng, texts, convert_override, two_line=None):
